@@ -244,7 +244,76 @@ func runCheck(id, tier string) int {
 	if ps.Extra != nil {
 		ps.Extra(pc)
 	}
+	if tier == "thorough" {
+		pc.thoroughScenarios()
+	}
 	return pc.report(t0)
+}
+
+// thoroughScenarios (thorough tier only): besides the proof obligations, the scenario pools are run
+// against the real code for every function under contract -- the in-package replay harness of the
+// library packages and the witness packages of the translator. On a tree where the obligations
+// hold they must all pass; a failing scenario that is not bound to a recorded known finding is
+// reported as a violation with that scenario as the failing input. (Dynamic, bounded exploration
+// that supplements the proofs; it decides nothing the quick tier claims.)
+func (pc *propCheck) thoroughScenarios() {
+	seen := map[string]bool{}
+	nRun := 0
+	var funcs []string
+	for _, r := range pc.Results {
+		if r.con == nil || r.con.FuncName == "" || seen[r.con.Pkg+"|"+r.con.FuncName] {
+			continue
+		}
+		seen[r.con.Pkg+"|"+r.con.FuncName] = true
+		funcs = append(funcs, r.con.FuncName)
+		if !pc.hasLibraryHarness(r.con) {
+			continue
+		}
+		o := &Obligation{Name: r.con.FuncName + "/scenario pool", Kind: "scenario", Func: r.con.FuncName}
+		rr := pc.replayLibrary(o, r.con, "")
+		if rr.Tried {
+			nRun++
+		}
+		if rr.Confirmed {
+			pc.ExtraViolations = append(pc.ExtraViolations, extraViolation{Name: o.Name, Detail: "a scenario of the replay harness fails on the real code although every obligation of the function is discharged\n" + rr.Cmd, Input: rr.Detail})
+		}
+	}
+	isTr := false
+	for _, r := range pc.Results {
+		if r.con != nil {
+			for _, t := range translatorPkgs {
+				if r.con.Pkg == t {
+					isTr = true
+				}
+			}
+		}
+	}
+	nWit := 0
+	if isTr && pc.ID != "C18" {
+		fset := map[string]bool{}
+		for _, f := range funcs {
+			fset[f] = true
+		}
+		for _, w := range loadWitnesses() {
+			rel := false
+			for _, f := range w.Funcs {
+				if fset[f] {
+					rel = true
+				}
+			}
+			if !rel {
+				continue
+			}
+			out := pc.runWitness(w)
+			nWit++
+			if !out.Behaved && len(w.KnownFor) == 0 {
+				src, _ := os.ReadFile(filepath.Join(w.Dir, "w.go"))
+				pc.ExtraViolations = append(pc.ExtraViolations, extraViolation{Name: "witness " + w.Name + "/scenario pool", Detail: fmt.Sprintf("witness package %s (expected: %s): %s", w.Name, w.Expect, out.Observed), Input: string(src)})
+			}
+		}
+	}
+	pc.Extra["scenario_pool_functions_run"] = nRun
+	pc.Extra["witness_packages_run"] = nWit
 }
 
 func (pc *propCheck) discharge() {
